@@ -3,6 +3,7 @@ from typing import Callable, Optional, Tuple
 from abc import ABC, abstractmethod
 
 from .modes import ModeStatistics
+from . import _verif
 
 
 class BaseMCMCRunner(ABC):
@@ -145,6 +146,7 @@ class BaseMCMCRunner(ABC):
         np.ndarray, np.ndarray, np.ndarray, Optional[np.ndarray], float, float, int, int
     ]:
         """Run MCMC sampling."""
+        _verif.emit("mcmc_begin", runner=self)
         while True:
             self.iteration += 1
 
@@ -175,6 +177,15 @@ class BaseMCMCRunner(ABC):
             self.logl[mask_accept] = logl_prime[mask_accept]
             if self.blobs is not None:
                 self.blobs[mask_accept] = blobs_prime[mask_accept]
+            _verif.emit(
+                "sweep",
+                runner=self,
+                u_prime=u_prime,
+                x_prime=x_prime,
+                logl_prime=logl_prime,
+                blobs_prime=blobs_prime,
+                mask=mask_accept,
+            )
 
             # Adapt sigmas for each cluster
             for c in range(self.n_clusters):
